@@ -15,6 +15,7 @@ FUNCTIONS = [
     'src.ir.type_utils._get_available_types',
     'src.ir.type_utils._compute_type_variable_assignments',
     'src.ir.type_utils.instantiate_type_constructor',
+    'src.ir.type_utils.instantiate_parameterized_function',
     'src.ir.types.TypeConstructor.new',
 ]
 TRUSTED = [
@@ -31,8 +32,7 @@ ASSUMPTIONS = [
     'pool filtering. "each argument is a subtype of the bound after substituting the other arguments", "exactly one '
     'argument per parameter" and "requested assignments are kept" are the bounded part',
 ]
-NOT_UNDER_CONTRACT = ['src.ir.type_utils.update_type_var_bound_rec', 'src.ir.type_utils.instantiate_parameterized_function',
-                      'src.ir.type_utils.choose_type']
+NOT_UNDER_CONTRACT = ['src.ir.type_utils.update_type_var_bound_rec', 'src.ir.type_utils.choose_type']
 
 def custom_proof(tier):
     """the global switches reach cfg: symbolic execution of the configuration block of src/args.py (z3)"""
